@@ -475,6 +475,6 @@ def gen_config_wild(rng):
     if params:
         cfg["parameters"] = params
     if tags and rng.random() < 0.6:
-        cfg["decorators"] = [{"tag": rng.choice(tags), "decorator": "pkg.Dec", "arguments": [wild_arg(rng, pnames, snames, tags) for _ in range(rng.randint(0, 2))]}
+        cfg["decorators"] = [{"tag": rng.choice(tags * 4 + ["*"]), "decorator": "pkg.Dec", "arguments": [wild_arg(rng, pnames, snames, tags) for _ in range(rng.randint(0, 2))]}
                              for _ in range(rng.randint(1, 3))]
     return cfg
